@@ -56,7 +56,7 @@ func genC09S(w *simrt.Choices, tier string, avoid map[string]bool) Case {
 		case 2, 3:
 			a.Kind = "rest"
 			for j, n := 0, 1+w.Choose(5); j < n; j++ {
-				a.Steps = append(a.Steps, []string{"list", "delete", "delete", "purge", "seen", "get", "source"}[w.Choose(7)])
+				a.Steps = append(a.Steps, []string{"list", "delete", "delete", "purge", "seen", "get", "source", "latest"}[w.Choose(8)])
 			}
 		default:
 			a.Kind = "pop3"
@@ -162,6 +162,28 @@ func runC09S(c *Ctx, cs Case) {
 							return
 						}
 						known, _ = decodeList(r.Body)
+					case "latest":
+						// whatever the newest message is at that moment: one message, not parts of two
+						r := web.request("GET", web.apiPath(a.Box, "latest"), nil)
+						switch {
+						case r.Panic != "":
+							c.Failf("rest-get-panics", "%s: GET latest -> %s", name, r)
+							return
+						case r.Code == 404:
+						case r.Code == 200:
+							m, err := decodeMsg(r.Body)
+							if err != nil || m.Body == nil {
+								c.Failf("rest-get-failed", "%s: GET latest -> %s: not a message", name, r)
+								return
+							}
+							if !strings.Contains(m.Body.Text, "body of "+m.Subject) {
+								c.Failf("rest-latest-mixes-two-messages", "%s: GET latest returned id %q subject %q with the text of another message: %q", name, m.ID, m.Subject, clipStr(m.Body.Text, 80))
+								return
+							}
+						default:
+							c.Failf("rest-get-failed", "%s: GET latest -> %s", name, r)
+							return
+						}
 					case "get", "source":
 						if len(known) == 0 {
 							r := web.request("GET", web.apiPath(a.Box), nil)
